@@ -2,7 +2,9 @@
 """Development helper: confirm a seeded defect (tests pass, demo passes clean / fails patched), run the check on it, store under seeded/."""
 import json, os, shutil, subprocess, sys
 prop, tag = sys.argv[1], sys.argv[2]
-src = f"/tmp/mut/out/{prop}/{tag}"
+root = os.environ.get("SEED_SRC", "/tmp/mut/out")          # where the agents wrote; SEED_AS renames the tag (second round: A->C, B->D)
+src = f"{root}/{prop}/{tag}"
+save_as = os.environ.get("SEED_AS", tag)
 wt = f"/tmp/seedcheck-{prop}-{tag}"
 def sh(cmd, cwd=None, env=None):
     r = subprocess.run(cmd, shell=True, cwd=cwd, env=env, stdout=subprocess.PIPE, stderr=subprocess.STDOUT, text=True)
@@ -45,10 +47,10 @@ try:
 finally:
     sh("git checkout -- .", cwd="/repo")
 print(json.dumps(detected, indent=1))
-dst = f"/verif/seeded/{prop}-{tag}"
+dst = f"/verif/seeded/{prop}-{save_as}"
 os.makedirs(dst, exist_ok=True)
 shutil.copy(f"{src}/patch.diff", dst); shutil.copy(f"{src}/demo.py", dst)
 meta = json.load(open(f"{src}/meta.json"))
 meta.update({"breaks_property": prop, "confirmed": ran, "check_result": detected,
-             "how_to_run": f"git -C /repo apply seeded/{prop}-{tag}/patch.diff && ./check {prop}; git -C /repo checkout -- ."})
+             "how_to_run": f"git -C /repo apply seeded/{prop}-{save_as}/patch.diff && ./check {prop}; git -C /repo checkout -- ."})
 json.dump(meta, open(f"{dst}/meta.json", "w"), indent=1)
